@@ -93,6 +93,9 @@ func (ex *Exec) resetPath() {
 	ex.sharedMaps = nil
 	ex.sharedOrder = nil
 	ex.sharedRoots = nil
+	ex.interleave = nil
+	ex.lockHook = nil
+	ex.inLockHook = false
 	ex.cellNames = nil
 	ex.nextID = 0
 	ex.onces = map[*value]bool{}
